@@ -258,6 +258,8 @@ func C02(c *vk.Ctx) {
 		c.Infra("the validator-level part was replayed on %d cells only: it would be vacuous", hubWalks)
 	}
 	c.Set("transitions", trans)
+	// the same three properties while other queries are in flight at a responder shared by two issuers (OcspFlight.tla)
+	walks += ocspFlight(c, "C02", rand.New(rand.NewSource(c.Seed+2)))
 	c.Set("traces_validated_against_impl", int64(walks))
 	c.Set("spec", "Ocsp.tla: RevokedRejects, StrictNeedsAnswer, LenientNeverDenies, WalkStops over all responder lists of length 0..2 (and seeded length 3) over 10 behaviour classes x strict x default duration {0, >0}; two queries per behaviour so that the second may be served from the cache")
 	c.Set("rule", "a case is (responder list, strict, cache duration, query pair) executed on real OCSPRevocationCheckers against scripted responders with real signed responses; predicates are directional: authentic revoked accepted; strict accepted without authentic answer; lenient denied without authentic revoked")
@@ -384,6 +386,8 @@ func C05(c *vk.Ctx) {
 	}
 	walks += c05Mutations(c)
 	c.Set("transitions", trans)
+	// queries with a duration, several in flight at the same responder (OcspFlight.tla): only the reply about THIS certificate counts
+	walks += ocspFlight(c, "C05", rand.New(rand.NewSource(c.Seed+5)))
 	c.Set("traces_validated_against_impl", int64(walks))
 	c.Set("spec", "Ocsp.tla: Counts(class) is the requirement (successful response, signed by the issuer or by a responder the issuer authorised for OCSP signing, about exactly this serial); OnlyCounted proved for single responders of every class and for every uncounted class followed by an authentic good / revoked / delegated answer, strict x cache duration")
 	c.Set("rule", "a case is (responder list, strict, cache duration, two queries) on real checkers; unauthentic responders claim the status that would flip the verdict if believed; violation iff the verdict differs from the specification's or such an answer is cached; plus byte mutations of an authentic response inside tbsResponseData / signature which must turn it into no answer")
